@@ -642,8 +642,10 @@ func toDeleteNotification(n *pb.Notification, timestamp int64) *pb.Notification 
 	case len(prefix.GetElem()) > 0 || len(path.GetElem()) > 0:
 		// Copy rather than append in place: the prefix may be shared by other
 		// notifications and its backing array must not be overwritten.
-		elems := make([]*pb.PathElem, 0, len(prefix.GetElem())+len(path.GetElem()))
-		elems = append(append(elems, prefix.GetElem()...), path.GetElem()...)
+		// Either part may still use the deprecated element encoding.
+		pre, suf := pathElems(prefix), pathElems(path)
+		elems := make([]*pb.PathElem, 0, len(pre)+len(suf))
+		elems = append(append(elems, pre...), suf...)
 		d.Delete = []*pb.Path{{Elem: elems}}
 	default:
 		elems := make([]string, 0, len(prefix.GetElement())+len(path.GetElement()))
@@ -651,6 +653,20 @@ func toDeleteNotification(n *pb.Notification, timestamp int64) *pb.Notification 
 		d.Delete = []*pb.Path{{Element: elems}}
 	}
 	return d
+}
+
+// pathElems returns the elements of p as PathElems, converting the deprecated
+// element encoding when elem is not used (the same precedence as
+// path.ToStrings).
+func pathElems(p *pb.Path) []*pb.PathElem {
+	if e := p.GetElem(); len(e) > 0 {
+		return e
+	}
+	elems := make([]*pb.PathElem, 0, len(p.GetElement()))
+	for _, name := range p.GetElement() {
+		elems = append(elems, &pb.PathElem{Name: name})
+	}
+	return elems
 }
 
 func (t *Target) gnmiRemove(n *pb.Notification) []*ctree.Leaf {
